@@ -47,8 +47,9 @@ def run_e1(res, tier):
     kinds_for = lambda s: ENUMK if (tier == "thorough" or len(s) <= 3 or s in model.N_IN or s in model.N_OUT) else ["exec"]
     for s in idents:
         for kind in kinds_for(s):
+            # declared in reverse alphabetical order, so the published list has to be sorted by the generator
             other = "zz_other"
-            ms = (Method(kind, s, (Arg("a", "u32"),)), Method(kind, other, ()))
+            ms = (Method(kind, other, ()), Method(kind, s, (Arg("a", "u32"),)), Method(kind, "zy_third", ()))
             c = Contract(methods=(Method("instantiate", "inst", ()),) + ms)
             r = model.e1_contract_record("ct:%s:%s" % (kind, s), c, want="items,bodies=" + "|".join(TABLE_FN.values()))
             recs.append(r)
